@@ -10,9 +10,14 @@ namespace Mesa.Layers
 def Op.mayWrite (s : State) (l : Nat) : Op → Prop
   | .layerSet l' _ _ => l' = l
   | .setCells l' _ _ => l' = l
+  | .setFrom l' _ _ => l' = l
   | .modifyCells l' _ _ => l' = l
+  | .modifyT l' _ _ _ => l' = l
+  | .modifyU l' _ _ _ => l' = l
   | .modifyCell l' _ _ => l' = l
+  | .modifyCellU l' _ _ _ => l' = l
   | .cellSet n _ _ => s.named? n = some l
+  | .cellSet2 l' _ _ => l' = l
   | .hset h _ _ => ∃ d, s.handles.lookup h = some ((s.layers l).data, d)
   | .place _ _ => s.impl = .new ∧ s.named? "empty" = some l
   | .move _ _ => s.impl = .new ∧ s.named? "empty" = some l
@@ -63,20 +68,59 @@ theorem value_afterLeave {s : State} (hw : WF s) {l : Nat} (hl : l < s.nLayers)
 
 /-- changing only the agents changes no layer value and none of the tables -/
 theorem withAgents_wf {s : State} (hw : WF s) (ag : List (Nat × Coord)) : WF { s with agents := ag } :=
-  hw.of_sameShape ⟨rfl, rfl, rfl, rfl, rfl, rfl, rfl, rfl⟩
+  hw.of_sameShape ⟨rfl, rfl, rfl, rfl, rfl, rfl, rfl, rfl, rfl⟩
+
+theorem value_setCells {s : State} (hw : WF s) {l : Nat} (hl : l < s.nLayers) (l' : Nat) (v : Int)
+    (cond : Option (Int → Bool)) (hne : l' ≠ l) (c : Coord) : (setCells s l' v cond).1.value l c = s.value l c := by
+  unfold setCells
+  split
+  · rfl
+  · next L hL =>
+    obtain ⟨hl', rfl⟩ := layer?_some hL
+    rw [value_upd hw hl' hl, if_neg (fun e => hne e.symm)]
+
+theorem value_modifyCellsT {s : State} (hw : WF s) {l : Nat} (hl : l < s.nLayers) (l' : Nat)
+    (f : Option (Int → Int)) (cond : Option (Int → Bool)) (rd : DType) (hne : l' ≠ l) (c : Coord) :
+    (modifyCellsT s l' f cond rd).1.value l c = s.value l c := by
+  have hlt := hw.data_lt l hl
+  unfold modifyCellsT
+  split
+  · rfl
+  · next L hL =>
+    obtain ⟨hl', rfl⟩ := layer?_some hL
+    split
+    · rfl
+    · have h1 : l ≠ l' := fun e => hne e.symm
+      have h2 : (s.layers l).data ≠ s.next := by omega
+      simp [State.value, upd, h1, h2]
+
+theorem value_modifyCell {s : State} (hw : WF s) {l : Nat} (hl : l < s.nLayers) (l' : Nat) (c' : Coord)
+    (f : Option (Int → Int)) (hne : l' ≠ l) (c : Coord) : (modifyCell s l' c' f).1.value l c = s.value l c := by
+  unfold modifyCell
+  split
+  · rfl
+  · split
+    · rfl
+    · next L hL =>
+      obtain ⟨hl', rfl⟩ := layer?_some hL
+      split
+      · rfl
+      · split
+        · rfl
+        · rw [value_upd hw hl' hl, if_neg (fun e => hne e.symm)]
 
 theorem value_stable {s : State} (hw : WF s) {l : Nat} (hl : l < s.nLayers) (op : Op)
     (hno : ¬ op.mayWrite s l) (c : Coord) : (step s op).1.value l c = s.value l c := by
   have hlt := hw.data_lt l hl
   cases op with
-  | create n d =>
+  | create n dt d =>
     simp only [step]; unfold create
     split
     · rfl
     · have h1 : l ≠ s.nLayers := by omega
       have h2 : (s.layers l).data ≠ s.next := by omega
       simp [State.value, upd, h1, h2]
-  | newLayer n dims d =>
+  | newLayer n dims dt d =>
     simp only [step]; unfold newLayer
     split
     · rfl
@@ -110,7 +154,7 @@ theorem value_stable {s : State} (hw : WF s) {l : Nat} (hl : l < s.nLayers) (op 
       · rfl
       · split
         · rfl
-        · exact value_cellAttrWrite hw hl n hn c' v c
+        · exact value_cellAttrWrite hw hl n hn c' _ c
     · split
       · rfl
       · next lid hlid =>
@@ -123,14 +167,31 @@ theorem value_stable {s : State} (hw : WF s) {l : Nat} (hl : l < s.nLayers) (op 
           subst this
           exact hn hlid
   | cellGet n c' => rfl
-  | setCells l' v cond =>
-    simp only [step]; unfold setCells
+  | cellSet2 l' c' w =>
+    simp only [step]; unfold cellSet2
     split
     · rfl
-    · next L hL =>
-      obtain ⟨hl', rfl⟩ := layer?_some hL
-      have hne : l' ≠ l := hno
-      rw [value_upd hw hl' hl, if_neg (fun e => hne e.symm)]
+    · unfold layerSet
+      split
+      · rfl
+      · next L hL =>
+        obtain ⟨hl', rfl⟩ := layer?_some hL
+        split
+        · rfl
+        · have hne : l' ≠ l := hno
+          rw [value_upd hw hl' hl, if_neg (fun e => hne e.symm)]
+  | cellGet2 l' c' => rfl
+  | setCells l' w cond =>
+    have hne : l' ≠ l := hno
+    cases w with
+    | raw v => exact value_setCells hw hl l' v cond hne c
+    | py x =>
+      simp only [step]; unfold setCellsV
+      split
+      · rfl
+      · split
+        · rfl
+        · exact value_setCells hw hl l' _ cond hne c
   | modifyCells l' f cond =>
     simp only [step]; unfold modifyCells
     split
@@ -143,6 +204,28 @@ theorem value_stable {s : State} (hw : WF s) {l : Nat} (hl : l < s.nLayers) (op 
         have h1 : l ≠ l' := fun e => hne e.symm
         have h2 : (s.layers l).data ≠ s.next := by omega
         simp [State.value, upd, h1, h2]
+  | setFrom l' hd cond =>
+    simp only [step]; unfold setFrom
+    split
+    · rfl
+    · next L hL =>
+      obtain ⟨hl', rfl⟩ := layer?_some hL
+      split
+      · rfl
+      · split
+        · rfl
+        · split
+          · rfl
+          · have hne : l' ≠ l := hno
+            rw [value_upd hw hl' hl, if_neg (fun e => hne e.symm)]
+  | modifyT l' f cond rd => exact value_modifyCellsT hw hl l' f cond rd hno c
+  | modifyU l' op x cond =>
+    simp only [step]; unfold modifyU
+    split
+    · rfl
+    · split
+      · rfl
+      · exact value_modifyCellsT hw hl l' _ cond _ hno c
   | modifyCell l' c' f =>
     simp only [step]; unfold modifyCell
     split
@@ -157,6 +240,28 @@ theorem value_stable {s : State} (hw : WF s) {l : Nat} (hl : l < s.nLayers) (op 
           · rfl
           · have hne : l' ≠ l := hno
             rw [value_upd hw hl' hl, if_neg (fun e => hne e.symm)]
+  | modifyCellU l' c' op x =>
+    simp only [step]; unfold modifyCellU
+    split
+    · rfl
+    · split
+      · rfl
+      · split
+        · rfl
+        · split
+          · rfl
+          · exact value_modifyCell hw hl l' c' _ hno c
+  | fromData n hd =>
+    simp only [step]; unfold fromData
+    split
+    · rfl
+    · split
+      · rfl
+      · split
+        · rfl
+        · have h1 : l ≠ s.nLayers := by omega
+          have h2 : (s.layers l).data ≠ s.next := by omega
+          simp [State.value, upd, h1, h2]
   | grab hd l' =>
     simp only [step]; unfold grab
     split <;> rfl
@@ -174,6 +279,7 @@ theorem value_stable {s : State} (hw : WF s) {l : Nat} (hl : l < s.nLayers) (op 
   | hdump hd => rfl
   | dump l' => rfl
   | dumpName n => rfl
+  | dtype l' => rfl
   | layerSelect l' p => rfl
   | aggregate l' k => rfl
   | place a c' =>
@@ -217,6 +323,18 @@ theorem value_stable {s : State} (hw : WF s) {l : Nat} (hl : l < s.nLayers) (op 
           rw [e1]
           exact value_afterLeave (s := { s with agents := s.agents.filter (·.1 ≠ a) }) hw0 hl hno c0 c
   | empties => rfl
+  | gridSet n =>
+    simp only [step]; unfold gridSet
+    split
+    · rfl
+    · split <;> rfl
+  | nbhdMask k geom torus c' ic r =>
+    simp only [step]; unfold nbhdMask
+    split
+    · rfl
+    · split
+      · rfl
+      · split <;> rfl
   | select ms oe conds exts save =>
     simp only [step]
     split
@@ -225,10 +343,28 @@ theorem value_stable {s : State} (hw : WF s) {l : Nat} (hl : l < s.nLayers) (op 
       · rfl
       · split <;> rfl
 
+/-- a promoting `modify_cells` changes neither the number of layers, nor the grid's shape, nor the shape of
+    any layer -/
+theorem shape_modifyCellsT (s : State) (l : Nat) (f : Option (Int → Int)) (cond : Option (Int → Bool))
+    (rd : DType) : (modifyCellsT s l f cond rd).1.nLayers = s.nLayers ∧ (modifyCellsT s l f cond rd).1.dims = s.dims ∧
+    ∀ k, ((modifyCellsT s l f cond rd).1.layers k).dims = (s.layers k).dims := by
+  unfold modifyCellsT
+  split
+  · exact ⟨rfl, rfl, fun _ => rfl⟩
+  · next L hL =>
+    obtain ⟨_, rfl⟩ := layer?_some hL
+    split
+    · exact ⟨rfl, rfl, fun _ => rfl⟩
+    · refine ⟨rfl, rfl, fun k => ?_⟩
+      simp only [upd]
+      split
+      · next e => subst e; rfl
+      · rfl
+
 theorem nLayers_step (s : State) (op : Op) : s.nLayers ≤ (step s op).1.nLayers := by
   cases op with
-  | create n d => simp only [step]; unfold create; split <;> simp
-  | newLayer n dims d => simp only [step]; unfold newLayer; split <;> simp
+  | create n dt d => simp only [step]; unfold create; split <;> simp
+  | newLayer n dims dt d => simp only [step]; unfold newLayer; split <;> simp
   | attach l =>
     simp only [step]; unfold attach
     split
@@ -239,25 +375,50 @@ theorem nLayers_step (s : State) (op : Op) : s.nLayers ≤ (step s op).1.nLayers
   | layerGet l c => exact Nat.le_refl _
   | cellSet n c v => exact Nat.le_of_eq (sameShape_cellSet ..).nLayers.symm
   | cellGet n c => exact Nat.le_refl _
-  | setCells l v cond => exact Nat.le_of_eq (sameShape_setCells ..).nLayers.symm
+  | cellSet2 l c w => exact Nat.le_of_eq (sameShape_cellSet2 ..).nLayers.symm
+  | cellGet2 l c => exact Nat.le_refl _
+  | setCells l w cond =>
+    cases w with
+    | raw v => exact Nat.le_of_eq (sameShape_setCells ..).nLayers.symm
+    | py x => exact Nat.le_of_eq (sameShape_setCellsV ..).nLayers.symm
   | modifyCells l f cond =>
     simp only [step]; unfold modifyCells
     split
     · exact Nat.le_refl _
     · split <;> exact Nat.le_refl _
+  | setFrom l hd cond => exact Nat.le_of_eq (sameShape_setFrom ..).nLayers.symm
+  | modifyT l f cond rd => exact Nat.le_of_eq (shape_modifyCellsT s l f cond rd).1.symm
+  | modifyU l op x cond =>
+    simp only [step]; unfold modifyU
+    split
+    · exact Nat.le_refl _
+    · split
+      · exact Nat.le_refl _
+      · exact Nat.le_of_eq (shape_modifyCellsT ..).1.symm
   | modifyCell l c f => exact Nat.le_of_eq (sameShape_modifyCell ..).nLayers.symm
+  | modifyCellU l c op x => exact Nat.le_of_eq (sameShape_modifyCellU ..).nLayers.symm
+  | fromData n hd =>
+    simp only [step]; unfold fromData
+    split
+    · exact Nat.le_refl _
+    · split
+      · exact Nat.le_refl _
+      · split <;> simp
   | grab hd l => simp only [step]; unfold grab; split <;> exact Nat.le_refl _
   | hget hd c => exact Nat.le_refl _
   | hset hd c v => exact Nat.le_of_eq (sameShape_hset ..).nLayers.symm
   | hdump hd => exact Nat.le_refl _
   | dump l => exact Nat.le_refl _
   | dumpName n => exact Nat.le_refl _
+  | dtype l => exact Nat.le_refl _
   | layerSelect l p => exact Nat.le_refl _
   | aggregate l k => exact Nat.le_refl _
   | place a c => exact Nat.le_of_eq (sameShape_place ..).nLayers.symm
   | move a c => exact Nat.le_of_eq (sameShape_move ..).nLayers.symm
   | remove a => exact Nat.le_of_eq (sameShape_remove ..).nLayers.symm
   | empties => exact Nat.le_refl _
+  | nbhdMask k geom torus c ic r => exact Nat.le_of_eq (sameShape_nbhdMask ..).nLayers.symm
+  | gridSet n => exact Nat.le_of_eq (sameShape_gridSet ..).nLayers.symm
   | select ms oe conds exts save =>
     simp only [step]
     split
@@ -293,12 +454,12 @@ theorem shapes_run (t : State) (os : List Op) : (run t os).1.dims = t.dims ∧
     obtain ⟨a, b⟩ := ih (step t op).1
     have hstep : (step t op).1.dims = t.dims ∧ ∀ k, k < t.nLayers → ((step t op).1.layers k).dims = (t.layers k).dims := by
       cases op with
-      | create n d =>
+      | create n dt d =>
         simp only [step]; unfold create
         split
         · exact ⟨rfl, fun _ _ => rfl⟩
         · exact ⟨rfl, fun k hk => by simp [upd, Nat.ne_of_lt hk]⟩
-      | newLayer n dims d =>
+      | newLayer n dims dt d =>
         simp only [step]; unfold newLayer
         split
         · exact ⟨rfl, fun _ _ => rfl⟩
@@ -313,7 +474,21 @@ theorem shapes_run (t : State) (os : List Op) : (run t os).1.dims = t.dims ∧
       | layerGet l c => exact ⟨rfl, fun _ _ => rfl⟩
       | cellSet n c v => exact ⟨(sameShape_cellSet ..).dims, fun k _ => congrArg (fun f => (f k).dims) (sameShape_cellSet ..).layers⟩
       | cellGet n c => exact ⟨rfl, fun _ _ => rfl⟩
-      | setCells l v cond => exact ⟨(sameShape_setCells ..).dims, fun k _ => congrArg (fun f => (f k).dims) (sameShape_setCells ..).layers⟩
+      | cellSet2 l c w => exact ⟨(sameShape_cellSet2 ..).dims, fun k _ => congrArg (fun f => (f k).dims) (sameShape_cellSet2 ..).layers⟩
+      | cellGet2 l c => exact ⟨rfl, fun _ _ => rfl⟩
+      | setCells l w cond =>
+        cases w with
+        | raw v => exact ⟨(sameShape_setCells ..).dims, fun k _ => congrArg (fun f => (f k).dims) (sameShape_setCells ..).layers⟩
+        | py x => exact ⟨(sameShape_setCellsV ..).dims, fun k _ => congrArg (fun f => (f k).dims) (sameShape_setCellsV ..).layers⟩
+      | setFrom l hd cond => exact ⟨(sameShape_setFrom ..).dims, fun k _ => congrArg (fun f => (f k).dims) (sameShape_setFrom ..).layers⟩
+      | modifyT l f cond rd => exact ⟨(shape_modifyCellsT t l f cond rd).2.1, fun k _ => (shape_modifyCellsT t l f cond rd).2.2 k⟩
+      | modifyU l op x cond =>
+        simp only [step]; unfold modifyU
+        split
+        · exact ⟨rfl, fun _ _ => rfl⟩
+        · split
+          · exact ⟨rfl, fun _ _ => rfl⟩
+          · exact ⟨(shape_modifyCellsT ..).2.1, fun k _ => (shape_modifyCellsT ..).2.2 k⟩
       | modifyCells l f cond =>
         simp only [step]; unfold modifyCells
         split
@@ -328,18 +503,31 @@ theorem shapes_run (t : State) (os : List Op) : (run t os).1.dims = t.dims ∧
             · next e => subst e; rfl
             · rfl
       | modifyCell l c f => exact ⟨(sameShape_modifyCell ..).dims, fun k _ => congrArg (fun f => (f k).dims) (sameShape_modifyCell ..).layers⟩
+      | modifyCellU l c op x => exact ⟨(sameShape_modifyCellU ..).dims, fun k _ => congrArg (fun f => (f k).dims) (sameShape_modifyCellU ..).layers⟩
+      | fromData n hd =>
+        simp only [step]; unfold fromData
+        split
+        · exact ⟨rfl, fun _ _ => rfl⟩
+        · split
+          · exact ⟨rfl, fun _ _ => rfl⟩
+          · split
+            · exact ⟨rfl, fun _ _ => rfl⟩
+            · exact ⟨rfl, fun k hk => by simp [upd, Nat.ne_of_lt hk]⟩
       | grab hd l => simp only [step]; unfold grab; split <;> exact ⟨rfl, fun _ _ => rfl⟩
       | hget hd c => exact ⟨rfl, fun _ _ => rfl⟩
       | hset hd c v => exact ⟨(sameShape_hset ..).dims, fun k _ => congrArg (fun f => (f k).dims) (sameShape_hset ..).layers⟩
       | hdump hd => exact ⟨rfl, fun _ _ => rfl⟩
       | dump l => exact ⟨rfl, fun _ _ => rfl⟩
       | dumpName n => exact ⟨rfl, fun _ _ => rfl⟩
+      | dtype l => exact ⟨rfl, fun _ _ => rfl⟩
       | layerSelect l p => exact ⟨rfl, fun _ _ => rfl⟩
       | aggregate l k => exact ⟨rfl, fun _ _ => rfl⟩
       | place a c => exact ⟨(sameShape_place ..).dims, fun k _ => congrArg (fun f => (f k).dims) (sameShape_place ..).layers⟩
       | move a c => exact ⟨(sameShape_move ..).dims, fun k _ => congrArg (fun f => (f k).dims) (sameShape_move ..).layers⟩
       | remove a => exact ⟨(sameShape_remove ..).dims, fun k _ => congrArg (fun f => (f k).dims) (sameShape_remove ..).layers⟩
       | empties => exact ⟨rfl, fun _ _ => rfl⟩
+      | nbhdMask k geom torus c ic r => exact ⟨(sameShape_nbhdMask ..).dims, fun k' _ => congrArg (fun f => (f k').dims) (sameShape_nbhdMask ..).layers⟩
+      | gridSet n => exact ⟨(sameShape_gridSet ..).dims, fun k' _ => congrArg (fun f => (f k').dims) (sameShape_gridSet ..).layers⟩
       | select ms oe conds exts save =>
         simp only [step]
         split
@@ -349,5 +537,104 @@ theorem shapes_run (t : State) (os : List Op) : (run t os).1.dims = t.dims ∧
           · split <;> exact ⟨rfl, fun _ _ => rfl⟩
     refine ⟨a.trans hstep.1, fun k hk => ?_⟩
     rw [b k (Nat.lt_of_lt_of_le hk (nLayers_step t op)), hstep.2 k hk]
+
+/-! ### the grid object's own attributes change only by `grid.<name> = x` -/
+
+theorem writeEmpty_gattrs (s : State) (c : Coord) (v : Int) : (writeEmpty s c v).gattrs = s.gattrs := by
+  unfold writeEmpty
+  split
+  · unfold cellAttrWrite; repeat' split
+    all_goals rfl
+  · rfl
+
+theorem afterLeave_gattrs (s : State) (c : Coord) : (afterLeave s c).gattrs = s.gattrs := by
+  unfold afterLeave
+  repeat' split
+  all_goals first | rfl | exact writeEmpty_gattrs ..
+
+theorem cellAttrWrite_gattrs (s : State) (n : String) (c : Coord) (v : Int) :
+    (cellAttrWrite s n c v).gattrs = s.gattrs := by
+  unfold cellAttrWrite; split <;> rfl
+
+theorem layerSet_gattrs (s : State) (l : Nat) (c : Coord) (v : Int) : (layerSet s l c v).1.gattrs = s.gattrs := by
+  unfold layerSet; repeat' split
+  all_goals rfl
+
+theorem modifyCell_gattrs (s : State) (l : Nat) (c : Coord) (f : Option (Int → Int)) :
+    (modifyCell s l c f).1.gattrs = s.gattrs := by
+  unfold modifyCell; repeat' split
+  all_goals rfl
+
+theorem cellSet_gattrs (s : State) (n : String) (c : Coord) (v : Int) : (cellSet s n c v).1.gattrs = s.gattrs := by
+  unfold cellSet
+  split
+  · split
+    · rfl
+    · split
+      · rfl
+      · exact cellAttrWrite_gattrs ..
+  · split
+    · rfl
+    · dsimp only
+      split <;> rfl
+
+theorem setCells_gattrs (s : State) (l : Nat) (v : Int) (cond : Option (Int → Bool)) :
+    (setCells s l v cond).1.gattrs = s.gattrs := by
+  unfold setCells; repeat' split
+  all_goals rfl
+
+theorem setCellsV_gattrs (s : State) (l : Nat) (x : Val) (cond : Option (Int → Bool)) :
+    (setCellsV s l x cond).1.gattrs = s.gattrs := by
+  unfold setCellsV; repeat' split
+  all_goals first | rfl | exact setCells_gattrs ..
+
+/-- only `grid.<name> = x` changes the grid object's own attributes -/
+theorem step_gattrs (s : State) (op : Op) :
+    (step s op).1.gattrs = s.gattrs ∨
+    ∃ m, op = .gridSet m ∧ s.named? m = none ∧ (step s op).1.gattrs = m :: s.gattrs := by
+  cases op
+  case cellSet n c w => exact Or.inl (cellSet_gattrs ..)
+  case setCells l w cond => cases w <;> simp only [step] <;> first | exact Or.inl (setCells_gattrs ..) | exact Or.inl (setCellsV_gattrs ..)
+  case gridSet m =>
+    simp only [step]; unfold gridSet
+    split
+    · exact Or.inl rfl
+    · split
+      · exact Or.inl rfl
+      · next _ hn =>
+        right
+        refine ⟨m, rfl, ?_, rfl⟩
+        cases hx : s.named? m <;> simp_all
+  all_goals left
+  all_goals simp only [step]
+  all_goals try rfl
+  all_goals
+    first
+    | (unfold create; repeat' split) <;> rfl
+    | (unfold newLayer; repeat' split) <;> rfl
+    | (unfold attach; repeat' split) <;> rfl
+    | (unfold detach; repeat' split) <;> rfl
+    | (unfold layerSet; repeat' split) <;> rfl
+    | (unfold cellSet; repeat' split) <;> first | rfl | exact cellAttrWrite_gattrs ..
+    | (unfold cellSet2; repeat' split) <;> first | rfl | exact layerSet_gattrs ..
+    | (unfold setCells; repeat' split) <;> rfl
+    | (unfold setCellsV; repeat' split) <;> rfl
+    | (unfold setFrom; repeat' split) <;> rfl
+    | (unfold modifyCells; repeat' split) <;> rfl
+    | (unfold modifyCellsT; repeat' split) <;> rfl
+    | (unfold modifyU modifyCellsT; repeat' split) <;> rfl
+    | (unfold modifyCell; repeat' split) <;> rfl
+    | (unfold modifyCellU; repeat' split) <;> first | rfl | exact modifyCell_gattrs ..
+    | (unfold grab; repeat' split) <;> rfl
+    | (unfold fromData; repeat' split) <;> rfl
+    | (unfold hset; repeat' split) <;> rfl
+    | (unfold nbhdMask; repeat' split) <;> rfl
+    | (unfold place; repeat' split) <;> first | rfl | exact writeEmpty_gattrs ..
+    | (unfold remove; repeat' split) <;> first | rfl | exact afterLeave_gattrs ..
+    | (unfold move; repeat' split) <;> first | rfl | exact (writeEmpty_gattrs ..).trans (afterLeave_gattrs ..)
+    | (repeat' split) <;> rfl
+    | skip
+
+theorem run_cons_fst (s : State) (op : Op) (ops : List Op) : (run s (op :: ops)).1 = (run (step s op).1 ops).1 := rfl
 
 end Mesa.Layers
